@@ -189,7 +189,7 @@ impl Check for C18 {
 
 /// to_string->from_str and save->open (fault-free / benign / terminal) for any serialisable library type
 #[allow(clippy::too_many_arguments)]
-fn ser_files<T: serde::Serialize + serde::de::DeserializeOwned>(io: &Io, mut out: RunOut, cfg: Cfg, fmt: SerializationFormat, lib: &T, eq: &dyn Fn(&T, &T) -> Option<String>, arte: &Value, kind: &str, want_sample: bool) -> (RunOut, u64) {
+fn ser_files<T: serde::Serialize + serde::de::DeserializeOwned + layout21utils::SerdeFile>(io: &Io, mut out: RunOut, cfg: Cfg, fmt: SerializationFormat, lib: &T, eq: &dyn Fn(&T, &T) -> Option<String>, arte: &Value, kind: &str, want_sample: bool) -> (RunOut, u64) {
     let art = |more: Value| json!({"format": fmt_name(fmt), "kind": kind, "library": arte.clone(), "more": more});
     let fk = format!("{}:{}", fmt_name(fmt), kind);
     let v = |class: &str, sig: String, detail: String, more: Value| Violation { class: class.into(), sig, detail, artefact: art(more) };
@@ -252,7 +252,9 @@ fn ser_files<T: serde::Serialize + serde::de::DeserializeOwned>(io: &Io, mut out
         let create_err = cfg == Cfg::Terminal && io.borrow_mut().ftape.chance(1, 12);
         fs.plan(L_MK, FilePlan { write: wpol.clone(), read: Policy::plain(), create_err: if create_err { Some(std::io::ErrorKind::PermissionDenied) } else { None }, ..Default::default() });
         let before = io.borrow().errors_returned.len();
-        let saved = match guard(|| fmt.save(lib, L_MK)) {
+        // either entry point: SerializationFormat::save or the SerdeFile trait method
+        let via_trait = io.borrow_mut().ftape.chance(1, 2);
+        let saved = match guard(|| if via_trait { layout21utils::SerdeFile::save(lib, L_MK, fmt) } else { fmt.save(lib, L_MK) }) {
             Err(p) => {
                 out.violation = Some(panic_violation("SerializationFormat::save", &p, art(Value::Null)));
                 false
@@ -273,7 +275,7 @@ fn ser_files<T: serde::Serialize + serde::de::DeserializeOwned>(io: &Io, mut out
                 out.probes.hit("save_error_swallowed_call_returned_ok");
             }
             // ack => durable: the stored file must load back equal (read side fault-free here)
-            match guard(|| fmt.open::<T>(L_MK)) {
+            match guard(|| if via_trait { <T as layout21utils::SerdeFile>::open(L_MK, fmt) } else { fmt.open::<T>(L_MK) }) {
                 Err(p) => out.violation = Some(panic_violation("SerializationFormat::open", &p, art(Value::Null))),
                 Ok(Err(e)) => out.violation = Some(v(if fired { "ack-not-durable" } else { "load-error" }, format!("{}:save-open/{}", fk, if fired { wlabel } else { "open" }), format!("save returned Ok but the stored file does not load (disk reported an error: {}): {}", fired, truncate(&e.to_string(), 300)), json!({"stored_len": fs.get(L_MK).map(|b| b.len()), "text_len": text.len()}))),
                 Ok(Ok(l2)) => {
